@@ -82,6 +82,7 @@ type B struct {
 	distinct  map[uint64]struct{}
 	caseLog   []byte // mmap'd (MAP_SHARED) record of the case being executed; survives a fatal runtime error
 	caseLen   int
+	violLog   *os.File
 	caseNo    int
 	caseClass string
 	caseDesc  string
@@ -232,10 +233,17 @@ func (b *B) Violate(sig, what string, detail any) {
 	if n >= 3 {
 		return
 	}
-	b.res.Violations = append(b.res.Violations, Violation{
+	v := Violation{
 		Property: b.Prop, Signature: sig, What: what, Tier: b.Tier, Seed: b.Seed,
 		Batch: b.Batch, Case: b.caseNo, CaseDesc: b.caseDesc, Detail: rawDetail(detail),
-	})
+	}
+	b.res.Violations = append(b.res.Violations, v)
+	if b.violLog != nil {
+		// written at once (page cache survives a later fatal runtime error of this process)
+		if data, err := json.Marshal(v); err == nil {
+			b.violLog.Write(append(data, '\n'))
+		}
+	}
 }
 
 // Guard runs f and converts a panic into a returned description (nil if no panic).
@@ -321,6 +329,10 @@ func RunChild(id, tier string, seed int64, batch int, race bool, stopAfter int) 
 				}
 			}
 			f.Close()
+		}
+		if vf, err := os.Create(resultPath + ".viol"); err == nil {
+			b.violLog = vf
+			defer vf.Close()
 		}
 	}
 	p.Run(b)
@@ -515,6 +527,14 @@ func RunDriver(id, tier string) int {
 			defer mu.Unlock()
 			if ok {
 				mergeBatch(m, &res)
+			} else if vdata, e := os.ReadFile(resultPath + ".viol"); e == nil {
+				// the child died before writing its result: keep the violations it had already seen
+				for _, line := range strings.Split(string(vdata), "\n") {
+					var v Violation
+					if line != "" && json.Unmarshal([]byte(line), &v) == nil {
+						m.Violations = append(m.Violations, v)
+					}
+				}
 			}
 			exit := 0
 			if err != nil {
